@@ -276,6 +276,23 @@ func checkC20(c CaseC20, info *Info) *Failure {
 			mxj.SetAttrPrefix("-")
 		}
 	}
+	if !strings.Contains(dpath, "*") {
+		// a one-segment new key: the new Map may then be a single key holding a list (no root element of its own)
+		pair1 := dpath + ":n1"
+		nm1, nerr1 := core.NewMap(pair1)
+		var w1x, w1j []byte
+		var w1xerr error
+		if nerr1 == nil {
+			w1x, w1xerr = nm1.Xml()
+			w1j, _ = nm1.Json()
+		}
+		if x, e := x2j.XmlNewXml(doc, pair1); (nerr1 == nil && !eqErr(e, w1xerr)) || (nerr1 != nil && e == nil) || (e == nil && !bytes.Equal(x, w1x)) {
+			return mism("x2j.XmlNewXml (one-segment new key "+pair1+")", string(x), string(w1x))
+		}
+		if j, e := x2j.XmlNewJson(doc, pair1); !eqErr(e, nerr1) || !bytes.Equal(j, w1j) {
+			return mism("x2j.XmlNewJson (one-segment new key "+pair1+")", string(j), string(w1j))
+		}
+	}
 	pair := dpath + ":n1.n2"
 	if !strings.Contains(dpath, "*") {
 		nm, nerr := core.NewMap(pair)
